@@ -466,6 +466,38 @@ class C04(Check):
             if mp != strip_proj(reals[i]):
                 ctx.disagree('cut/prediction/' + kind, {'text': texts[i], 'shape': shape}, strip_proj(reals[i]), mp)
 
+    def check_text_pipeline(self, ctx, texts, toklists, models, kind, limit):
+        """T4.5: the composed model (tokenizer model of C05, then the structure model) on the TEXT must give
+        exactly what the structure model gives on the real tokenizer's tokens (same rules, same token keys)"""
+        idx = [i for i, (tree, _) in enumerate(models) if isinstance(tree, dict)]
+        if limit is not None and len(idx) > limit:
+            # first the texts whose last token was completed by the tokenizer (open string / comment / url( ),
+            # then an even sample of the rest
+            def completed(i):
+                t = toklists[i]
+                return len(t) >= 2 and t[-2][0] in ('STRING', 'COMMENT', 'URI') and not texts[i].endswith(t[-2][1])
+            first = [i for i in idx if completed(i)][:limit // 2]
+            rest = [i for i in idx if i not in set(first)]
+            k = limit - len(first)
+            step = len(rest) / float(k)
+            idx = sorted(first + [rest[int(j * step)] for j in range(k)] if rest else first)
+        if not idx or not ctx.model_ok:
+            return
+        out = ctx.driver(['text %s %s' % (enc(texts[i]), models[i][1].entries()) for i in idx])
+        for i, line in zip(idx, out):
+            tree = models[i][0]
+            ctx.case(key=('text', texts[i]), nontrivial=True, kind='text-pipeline:' + kind,
+                     sample={'text': texts[i][-120:]})
+            if not line.startswith('{'):
+                ctx.disagree('text-pipeline/' + kind, {'text': texts[i]}, tree, line)
+                continue
+            got = json.loads(line)
+            mtoks = got.pop('toks')
+            rtoks = ','.join('%s:%s' % ('OTHER' if t[0] in OTHER_TYPES else t[0], enc(t[1])) for t in toklists[i])
+            if mtoks != rtoks or got != tree:
+                ctx.disagree('text-pipeline/' + kind, {'text': texts[i]}, {'toks': rtoks, 'tree': tree},
+                             {'toks': mtoks, 'tree': got})
+
     def check_sheets(self, ctx, texts, kind, nontrivial=None, cuts=False):
         """correspondence parseString vs model on texts; returns the real projections"""
         toklists = [tokenize(t) for t in texts]
@@ -487,6 +519,7 @@ class C04(Check):
                 ctx.disagree('parseString/' + kind, {'text': text}, strip_proj(real), strip_proj(mp))
         if cuts:
             self.check_cuts(ctx, texts, toklists, models, reals, kind)
+            self.check_text_pipeline(ctx, texts, toklists, models, kind, ctx.n(12, 40))
         return reals
 
     # -- correspondence: _tokensupto2 directly ---------------------------------------------------------
